@@ -2,8 +2,9 @@
 
 Exploration is by re-execution along a decision trail (no state copying); the z3 solver is kept
 incremental: one push per constraint event, aligned with the trail, so a replayed prefix costs no queries."""
-import re, time, math, struct
+import re, sys, time, math, struct
 import z3
+sys.setrecursionlimit(60000)
 from .mir import split_top, find_top, match_close, canon, type_head, unify
 from .values import *
 
@@ -379,6 +380,7 @@ class VM:
             if rest.startswith('{'):
                 for x in split_top(rest[1:-1].strip()):
                     fields.append(self.parse_operand(x.split(': ', 1)[1], fn))
+            fields = self.recover_captures(cty, fields, fn)
             return ('closure', cty, fields)
         m = re.match(r'^(SizeOf|AlignOf)\((.*)\)$', s)
         if m: return ('sizeof', m.group(1), canon(m.group(2)))
@@ -415,6 +417,41 @@ class VM:
             if not pick: raise Unmodelled('aggregate? ' + s)
             ty = pick[0]; var = enums[ty].index(segs[-1])
         return ('agg', ty, var, ops)
+
+    def recover_captures(self, cty, fields, fn):
+        """rustc's MIR printer zips a closure's capture operands with the *variables* it mentions, so with edition-2021 disjoint
+        captures (`self.env`, `self.write`, `n.0`) it prints fewer operands than there are captures.  The missing ones are the
+        temporaries of matching type that the constructing function computes and never uses otherwise."""
+        cf = self.mir.closures.get(canon(cty))
+        if cf is None: return fields
+        want = {}
+        for bb in cf.blocks.values():
+            for line in bb:
+                for m in re.finditer(r'\(\(?\*?_1\)?\.(\d+): ', line):
+                    i = int(m.group(1)); st = m.end(); d = 1; j = st
+                    while j < len(line) and d:
+                        ch = line[j]
+                        if ch in '([{<': d += 1
+                        elif ch in ')]}' or (ch == '>' and line[j - 1] not in '-='): d -= 1
+                        j += 1
+                    want.setdefault(i, canon(line[st:j - 1]))
+        n = (max(want) + 1) if want else 0
+        if n <= len(fields): return fields
+        used = {}
+        for bb in fn.blocks.values():
+            for line in bb:
+                for m in re.finditer(r'\b_\d+\b', line): used[m.group(0)] = used.get(m.group(0), 0) + 1
+        printed = {o[1][1] for o in fields if o[0] in ('copy', 'move') and o[1][0] == 'L'}
+        cands = [l for l in fn.locals if l not in printed and used.get(l, 0) == 1 and not l == '_0']       # assigned once, never read
+        cands.sort(key=lambda l: int(l[1:]))
+        cands += [f'_{i + 1}' for i in range(fn.nargs) if f'_{i + 1}' not in printed and f'_{i + 1}' not in cands]      # a captured argument
+        out = list(fields)
+        for i in range(len(fields), n):
+            ty = want.get(i)
+            pick = next((l for l in cands if ty is not None and fn.locals.get(l) == ty), None) or next((l for l in cands if ty is None and int(l[1:]) > fn.nargs), None)
+            if pick is None: raise Unmodelled(f'closure {cty}: capture {i} is not printed in the MIR text and could not be recovered')
+            cands.remove(pick); out.append(('copy' if int(pick[1:]) <= fn.nargs else 'move', ('L', pick)))
+        return out
 
     _vo = None
 
@@ -707,6 +744,7 @@ class VM:
         return v
 
     def eval_const(self, c, fr, dest_ty=''):
+        if fr is not None and fr.subst and c in fr.subst: c = fr.subst[c]         # const generic parameter
         if c == 'true': return True
         if c == 'false': return False
         if c == '()': return UNIT
@@ -735,6 +773,12 @@ class VM:
             return -(1 << (bits - 1)) if sg else 0
         if c.startswith('{0x') or re.match(r'0x[0-9a-f]+ as ', c) or re.fullmatch(r'\{transmute\(0x([0-9a-f]+)\): .*\}', c):
             m = re.search(r'0x([0-9a-f]+)', c); return int(m.group(1), 16)
+        m = re.fullmatch(r'\{(alloc\d+): &(.*)\}', c)
+        if m:
+            # reference to a static item: one shared cell per (MIR, static type)
+            ty = canon(m.group(2)); st = self.mir.__dict__.setdefault('_static_cells', {})
+            if ty not in st: st[ty] = Cell(Opaque('static', ty))
+            return Ref(st[ty])
         if 'SizedTypeProperties>::ALIGN' in c or 'SizedTypeProperties>::SIZE' in c or 'SizedTypeProperties>::IS_ZST' in c:
             if c.endswith('IS_ZST'): return False
             return 8
@@ -1165,6 +1209,11 @@ class VM:
             b.strong -= 1
             if b.strong == 0: self.drop_val(b.cell.v)
         elif isinstance(v, Adt):
+            if v.ty == 'RefGuard':          # std::cell::Ref / RefMut: release the borrow
+                flag = v.fields[1]
+                cur = self.ref_get(flag)
+                self.ref_set(flag, 0 if v.fields[2] else max(0, cur - 1))
+                return
             if v.ty == 'Box':
                 p = self.box_ptr(v)
                 if isinstance(p, Ref): self.drop_val(self.ref_get(p))
